@@ -49,6 +49,8 @@ type cfgT struct {
 	coalesce       bool
 	fates          []string // fates the node may choose per request (first = default): reply late never error drop cuthdr cutbody
 	heartbeat      bool     // horizon past the first heartbeat tick
+	hbFates        []string // how the node answers the connection's heartbeat OPTIONS (first = default): supported error never
+	stayOpen       bool     // no fate or fault of this scenario ends the connection: a request the node answered at once must not fail with 'connection closed'
 	closeErr       bool     // the transport's Close returns an error
 	timeoutLimit   int64    // gocql.TimeoutLimit (deprecated knob: close the connection after that many timeouts)
 	handshake      bool     // the scenario is the connection handshake itself, with a fault at an enumerated step
@@ -184,6 +186,9 @@ func (w *world) handler(n *vnode.Node, sc *vnode.ServerConn, rec *vnode.ReqRec) 
 		return vnode.Reply{Msg: rows, CutAt: 5}
 	case "cutbody":
 		return vnode.Reply{Msg: rows, CutAt: frame.HeaderSize(rec.Req.Header.Version) + 7}
+	case "stallhdr":
+		// the first byte of the response header, a pause longer than the request timeout, then the rest
+		return vnode.Reply{Msg: rows, StallAt: 1, StallFor: lateDelay}
 	case "stall":
 		// The body arrives in two parts separated by a stall longer than the client keeps retrying the read.
 		// The second part is, byte for byte, well-formed response frames for the stream ids in use: a client
@@ -352,7 +357,19 @@ func (c *cfgT) body(prop string) {
 	gocql.TimeoutLimit = c.timeoutLimit
 	vatomic.Yield = false // the stream-id allocator's atomic steps are explored by C08
 	w := &world{cfg: c, prop: prop, fateOf: map[string]string{}, stallRow: map[string]string{}}
-	w.node = vnode.New("n1", net.IPv4(10, 0, 0, 1), 9042, vnode.Basic(w.handler))
+	basic := vnode.Basic(w.handler)
+	w.node = vnode.New("n1", net.IPv4(10, 0, 0, 1), 9042, func(n *vnode.Node, sc *vnode.ServerConn, rec *vnode.ReqRec) vnode.Reply {
+		if _, ok := rec.Req.Msg.(*frame.Options); ok && sc.Ready && len(c.hbFates) > 0 {
+			// the connection's heartbeat
+			switch c.hbFates[vs.Choose(len(c.hbFates), vs.CostF)] {
+			case "error":
+				return vnode.Reply{Msg: &frame.Error{Code: 0x1001, Message: "overloaded (answer to the heartbeat)"}}
+			case "never":
+				return vnode.Reply{Never: true}
+			}
+		}
+		return basic(n, sc, rec)
+	})
 	client, server := vnet.Pipe("c0", &net.TCPAddr{IP: net.IPv4(10, 0, 0, 9), Port: 40000}, w.node.Addr)
 	client.Log = &w.wlog
 	w.client = client
@@ -413,6 +430,9 @@ func (c *cfgT) body(prop string) {
 				}
 				if op == "m" { // a query submitted just after the first coalescing window closed
 					vs.Sleep(coalesceWait + coalesceWait/2 - vs.Clock())
+				}
+				if op == "H" { // a query in flight when the first heartbeat (1s after connect) is sent
+					vs.Sleep(950*time.Millisecond - vs.Clock())
 				}
 				if op == "M" { // a query submitted in the middle of a stall
 					vs.Sleep(lateStart/2 - vs.Clock())
@@ -499,12 +519,16 @@ func (w *world) checkC01(got []result) {
 			if len(r.rows) != 1 || r.rows[0] != want {
 				vs.Failf("c01:misdelivered-rows", "caller of %q received rows %.60q (fate %q)", r.label, r.rows, fate)
 			}
-			if fate != "" && fate != "reply" && fate != "late" && fate != "stall" {
+			if fate != "" && fate != "reply" && fate != "late" && fate != "stall" && fate != "stallhdr" {
 				vs.Failf("c01:rows-without-reply", "caller of %q received rows although the node's fate for it was %q", r.label, fate)
 			}
 		case cls == "server-error":
 			if !strings.Contains(r.err.Error(), "invalid:"+r.label) {
 				vs.Failf("c01:misdelivered-error", "caller of %q received a server error that is not its own: %v (fate %q)", r.label, r.err, fate)
+			}
+		case cls == "conn-closed" && c.stayOpen && fate == "reply":
+			if _, dDev, _ := vs.Deviations(); dDev == 0 {
+				vs.Failf("c01:response-lost:connection-closed-without-a-fault", "caller of %q got %v although the node answered it at once and nothing in this scenario ends the connection", r.label, r.err)
 			}
 		case cls == "timeout", cls == "conn-closed", cls == "no-streams" && c.freeIDs > 0:
 		case cls == "ctx-canceled":
@@ -614,6 +638,10 @@ func (w *world) checkC06(got []result, live *gocql.VerifLive) {
 				continue
 			}
 			if _, isQ := r.Req.Msg.(*frame.Query); isQ && !r.Replied {
+				owed++
+			}
+			// a heartbeat OPTIONS the node chose not to answer holds its id like any other request
+			if _, isO := r.Req.Msg.(*frame.Options); isO && !r.Replied && r.Fate == "never" {
 				owed++
 			}
 		}
@@ -759,7 +787,7 @@ func (c *cfgT) build(prop string) func() *vs.Scenario {
 	return func() *vs.Scenario {
 		hz := 700 * time.Millisecond
 		for _, f := range c.fates {
-			if f == "stall" {
+			if f == "stall" || f == "stallhdr" {
 				hz = 5 * time.Second // a stall that starts after timer deviations still ends inside the horizon
 			}
 		}
@@ -793,6 +821,8 @@ func connScenarios() []*cfgT {
 		{name: "v4-stalled-body-late-caller", props: "C01 C06", proto: 4, callers: [][]string{q(1), {"L"}}, canceller: -1, fates: []string{"reply", "stall", "late"}, t: [2]int{2, 3}},
 		{name: "v4-stalled-body-write-error", props: "C06", proto: 4, callers: [][]string{q(1), {"M"}}, canceller: -1, writeFault: "some", fates: []string{"reply", "stall"}, t: [2]int{2, 3}},
 		{name: "v4-stalled-body-write-error-no-request-timeout", props: "C06", proto: 4, callers: [][]string{q(1), {"M"}}, canceller: -1, writeFault: "some", noTimeout: true, fates: []string{"reply", "stall"}, t: [2]int{2, 3}},
+		{name: "v4-stalled-header-late-caller", props: "C01 C06", proto: 4, callers: [][]string{q(1), {"L"}}, canceller: -1, stayOpen: true, fates: []string{"reply", "stallhdr"}, t: [2]int{2, 3}},
+		{name: "v4-heartbeat-answered-with-error", props: "C01 C06", proto: 4, callers: [][]string{{"H"}, {"H"}}, canceller: -1, heartbeat: true, hbFates: []string{"supported", "error", "never"}, fates: []string{"late", "reply", "never"}, t: [2]int{2, 3}},
 		{name: "v2-stalled-body-late-caller-free2", props: "C01 C06", proto: 2, callers: [][]string{q(2), {"L"}}, freeIDs: 2, canceller: -1, fates: []string{"reply", "stall"}, t: [2]int{2, 3}},
 		{name: "v2-3x2-free1-late", props: "C01", proto: 2, callers: [][]string{q(2), q(2), q(2)}, freeIDs: 1, canceller: -1, fates: rln, t: [2]int{2, 4}},
 		// C06
